@@ -4,6 +4,7 @@ import (
 	"encoding/hex"
 	"fmt"
 	"io"
+	"math"
 
 	"github.com/Eyevinn/mp4ff/bits"
 )
@@ -134,7 +135,7 @@ func DecodeESDescriptor(sr bits.SliceReader, descSize uint32) (ESDescriptor, err
 		return ed, fmt.Errorf("got tag %d instead of ESDescriptorTag %d", tag, ES_DescrTag)
 	}
 
-	sizeFieldSizeMinus1, size, err := readSizeSize(sr)
+	sizeFieldSizeMinus1, size, err := readSizeSize(sr, math.MaxInt)
 	if err != nil {
 		return ed, err
 	}
@@ -352,7 +353,8 @@ type DecoderConfigDescriptor struct {
 }
 
 func exceedsMaxNrBytes(sizeFieldSizeMinus1 byte, size uint64, maxNrBytes int) bool {
-	return 1+uint64(sizeFieldSizeMinus1)+1+size > uint64(maxNrBytes)
+	// size alone is checked first: the sum wraps around for sizes close to 2^64
+	return size > uint64(maxNrBytes) || 1+uint64(sizeFieldSizeMinus1)+1+size > uint64(maxNrBytes)
 }
 
 func DecodeDecoderConfigDescriptor(tag byte, sr bits.SliceReader, maxNrBytes int) (Descriptor, error) {
@@ -360,13 +362,16 @@ func DecodeDecoderConfigDescriptor(tag byte, sr bits.SliceReader, maxNrBytes int
 	if tag != DecoderConfigDescrTag {
 		return nil, fmt.Errorf("got tag %d instead of DecoderConfigDescrTag %d", tag, DecoderConfigDescrTag)
 	}
-	sizeFieldSizeMinus1, size, err := readSizeSize(sr)
+	sizeFieldSizeMinus1, size, err := readSizeSize(sr, maxNrBytes-1)
 	if err != nil {
 		return nil, err
 	}
 	dd.sizeFieldSizeMinus1 = sizeFieldSizeMinus1
 	if exceedsMaxNrBytes(sizeFieldSizeMinus1, size, maxNrBytes) {
 		return nil, fmt.Errorf("DecoderConfigDescriptor size %d exceeds maxNrBytes %d", size, maxNrBytes)
+	}
+	if size < 13 {
+		return nil, fmt.Errorf("DecoderConfigDescriptor size %d is less than the 13 fixed bytes", size)
 	}
 	dataStart := sr.GetPos()
 	dd.ObjectType = sr.ReadUint8()
@@ -504,7 +509,7 @@ func DecodeDecSpecificInfoDescriptor(tag byte, sr bits.SliceReader, maxNrBytes i
 		return nil, fmt.Errorf("got tag %d instead of DecSpecificInfoTag %d", tag, DecSpecificInfoTag)
 	}
 
-	sizeFieldSizeMinus1, size, err := readSizeSize(sr)
+	sizeFieldSizeMinus1, size, err := readSizeSize(sr, maxNrBytes-1)
 	if err != nil {
 		return nil, err
 	}
@@ -562,7 +567,7 @@ func DecodeSLConfigDescriptor(tag byte, sr bits.SliceReader, maxNrBytes int) (De
 	if tag != SLConfigDescrTag {
 		return nil, fmt.Errorf("got tag %d instead of SLConfigDescrTag %d", tag, SLConfigDescrTag)
 	}
-	sizeFieldSizeMinus1, size, err := readSizeSize(sr)
+	sizeFieldSizeMinus1, size, err := readSizeSize(sr, maxNrBytes-1)
 	if err != nil {
 		return nil, err
 	}
@@ -627,7 +632,7 @@ type RawDescriptor struct {
 }
 
 func DecodeRawDescriptor(tag byte, sr bits.SliceReader, maxNrBytes int) (Descriptor, error) {
-	sizeFieldSizeMinus1, size, err := readSizeSize(sr)
+	sizeFieldSizeMinus1, size, err := readSizeSize(sr, maxNrBytes-1)
 	if err != nil {
 		return nil, err
 	}
@@ -701,11 +706,18 @@ func CreateESDescriptor(decConfig []byte) ESDescriptor {
 
 // readTagAndSize - get size by accumulate 7 bits from each byte. MSB = 1 indicates more bytes.
 // Defined in ISO 14496-1 Section 8.3.3
-func readSizeSize(sr bits.SliceReader) (sizeFieldSizeMinus1 byte, size uint64, err error) {
+// The size field must not occupy more than maxLen bytes (the bytes the enclosing descriptor has left),
+// so that nothing beyond the enclosing descriptor is read.
+func readSizeSize(sr bits.SliceReader, maxLen int) (sizeFieldSizeMinus1 byte, size uint64, err error) {
 	tmp := sr.ReadUint8()
 	sizeOfInstance := uint64(tmp & 0x7f)
+	nrRead := 1
 	for tmp&0x80 != 0 {
+		if nrRead >= maxLen {
+			return 0, 0, fmt.Errorf("descriptor size field longer than the %d bytes available", maxLen)
+		}
 		tmp = sr.ReadUint8()
+		nrRead++
 		sizeFieldSizeMinus1++
 		sizeOfInstance = sizeOfInstance<<7 | uint64(tmp&0x7f)
 	}
